@@ -524,6 +524,35 @@ Definition tj_precheck (im : image) (n : nat) (t : tjx) : option xerr :=
       else None
   end.
 
+(* getTransformedSpecs(): destination size and level as tj3TransformBufSize assumes them
+   (None = it throws and tj3TransformBufSize returns 0).  Still on the TJSAMP grid. *)
+Definition tj_specs (im : image) (t : tjx) : option (Z * Z * Z) :=
+  let dw := if transposes (t_op t) then i_h im else i_w im in
+  let dh := if transposes (t_op t) then i_w im else i_h im in
+  let d := get_dst_subsamp (get_subsamp im) (t_gray t) (t_op t) in
+  if t_crop t then
+    if (t_x t <? 0) || (t_y t <? 0) || (t_w t <? 0) || (t_h t <? 0) then None else
+    if d =? -1 then None else
+    if negb (t_x t mod tj_mcu_w d =? 0) || negb (t_y t mod tj_mcu_h d =? 0) then None else
+    if (dw <=? t_x t) || (dh <=? t_y t) then None else
+    let cw := if t_w t =? 0 then dw - t_x t else t_w t in
+    let ch := if t_h t =? 0 then dh - t_y t else t_h t in
+    if (dw <? t_x t + cw) || (dh <? t_y t + ch) then None else Some (cw, ch, d)
+  else Some (dw, dh, d).
+
+(* PAD(v, p) for a power of two p; tj3JPEGBufSize(); tj3TransformBufSize() without ICC profile *)
+Definition pad_to (v p : Z) : Z := (v + p - 1) / p * p.
+Definition tj_jpeg_buf_size (w h s0 : Z) : Z :=
+  let s := if s0 =? -1 then 0 else s0 in
+  let mcuw := tj_mcu_w s in let mcuh := tj_mcu_h s in
+  let chromasf := if s =? 3 then 0 else 4 * 64 / (mcuw * mcuh) in
+  pad_to w mcuw * pad_to h mcuh * (2 + chromasf) + 2048.
+Definition tj_transform_buf_size (im : image) (t : tjx) : Z :=
+  match tj_specs im t with
+  | None => 0
+  | Some (w, h, s) => tj_jpeg_buf_size w h s
+  end.
+
 Fixpoint first_err {A} (f : A -> option xerr) (l : list A) : option xerr :=
   match l with
   | [] => None
